@@ -17,7 +17,7 @@ sys.path.insert(0, HERE)
 def last_resort(run, pid, seed):
     from pyvc.report import native
     S = {'seed': seed}
-    LAST = {'C01': [dict(S, kind='kd_buf_search')], 'C11': [dict(S, kind='flags_search')],
+    LAST = {'C01': [dict(S, kind='kd_buf_search')], 'C11': [dict(S, kind='flags_search'), {'kind': 'ioctl_search'}],
             'C02': [dict(S, kind='v2_search', budget=300, known=['first-record-leading-zero'])],
             'C03': [dict(S, kind='v3_blocks_search', budget=300)],
             'C04': [dict(S, kind='pairing_search', budget=4000, depth=4)],
@@ -28,10 +28,12 @@ def last_resort(run, pid, seed):
             'C14': [dict(S, kind='format_search', budget=300)],
             'C15': [dict(S, kind='callstack_search', budget=300)],
             'C16': [dict(S, kind='log_search', budget=300)],
+            'C18': [{'kind': 'darwin_names_search'}],
             'C19': [dict(S, kind='codes_search', budget=400), {'kind': 'supplied_table_case'}]}
     und = [u[0] for u in run.undecided]
     if pid in ('C07', 'C20', 'C15'):
-        comp = [n for n in ('PERF_Event', 'MACH_vmfault', 'DBG_DYLD_TIMING_LAUNCH_EXECUTABLE') if any(n in u for u in und) or run.engine_errors]
+        comp = [n for n in ('PERF_Event', 'MACH_vmfault', 'DBG_DYLD_TIMING_LAUNCH_EXECUTABLE') if any(n in u for u in und) or run.engine_errors
+                or (pid == 'C15' and n == 'PERF_Event') or (pid == 'C20' and n != 'PERF_Event')]
         LAST[pid] = LAST.get(pid, []) + [{'kind': 'composite_search', 'name': n, 'budget': 1500, 'seed': seed} for n in comp]
     names = sorted(set(u.split('/')[1].split('.', 1)[-1] for u in und if u.count('/') >= 2 and u.split('/')[1].split('.', 1)[0] in
                        ('bsd', 'mach', 'trace', 'perf', 'dyld', 'turnstile', 'corestorage', 'network', 'vfs', 'fsystem')))
